@@ -133,6 +133,61 @@
 //	                        that never escaped); anywhere else it is rejected
 //	marker, newlineMarker   no rule of its own: with no configured Global the package-level `var marker = []byte("-- ")`
 //	                        is inlined as the literal the LIBRARY source gives (the rule for package-level tables)
+//
+// Additions made for imports/read.go (the importReader byte machine behind ReadImports / ReadComments; preset
+// "importsread").  Every rule is switched on by the preset (Config.Threaded / PtrParams / Readers / Sentinels) or
+// applies only where the translator used to produce ill-formed Lean, so every earlier translation is byte-identical:
+//
+//	func (r *T) m(a) R      THREADED RECEIVER.  For a structure T listed in Config.Threaded (and Config.Structs) a
+//	                        pointer-receiver method is `m (r : T) (a) : Option (R × T)` — the receiver is the first
+//	                        parameter and its final value is returned after the Go results (`Option T` for a method
+//	                        without results, whose end is a plain return; R × T × P… with pointer parameters, below).
+//	                        `r.f` reads a field, `r.f = e` / `r.f++` is `let r := { r with f := … }`.  A call `x.m(a)` on a
+//	                        structure variable x (the receiver of the calling method, or a local `x := &T{…}` / `T{…}`) is
+//	                        `let (t, x) ← m x a`: it REBINDS x under the same Lean name, so everything translated after
+//	                        it reads the new state — also the rest of the condition it stands in (`for r.peekByte(true) != ')'
+//	                        && r.err == nil`).  As a statement the results are dropped.  The methods must be listed before
+//	                        their callers.  x as a value (`y := x`, an argument, a result) is rejected: the pointer would alias
+//	evaluation order        the pure part of an operand is a Lean term placed AFTER all `let` lines of the expression.  Where
+//	                        that could reorder a read and a rebinding call the translation is rejected: an operand or argument
+//	                        that is not a literal or a temporary to the LEFT of a rebinding call (`r.peek == r.readByte()`), a
+//	                        rebinding call in the right operand of && / || (conditional: the new state could not escape), in an
+//	                        index, a slice bound or a composite literal.  (`c, c1 = c1, r.readByte()` is fine: parallel
+//	                        assignment already evaluates every right-hand side into a temporary, in order.)
+//	p *[]T (parameter)      IN-OUT PARAMETER (Config.PtrParams): `Option (List T)`, none = the nil pointer; returned after the
+//	                        results and the receiver.  `p != nil` / `p == nil` is isSome / isNone, `*p` is `let t ← p` (a nil
+//	                        pointer panics), `*p = e` is `let _ ← p; let p := some e`, an argument `g(p)` for a pointer parameter
+//	                        of g must be the bare parameter (passed once) and is rebound by the call.  Anything else (`q := p`,
+//	                        a result, an argument for a value parameter) is rejected, so the pointer never aliases; that it does
+//	                        not point into the receiver is by type ([]string vs the receiver's fields)
+//	io.Reader, *bufio.Reader   THE REMAINING INPUT (Config.Readers): a parameter `f io.Reader`, a local `b := bufio.NewReader(f)`
+//	                        and a structure field `b *bufio.Reader` are the Bytes not read yet (GIV/GoLibReader.lean).
+//	                        `c, err := r.b.ReadByte()` is `(c, nil)` and one byte consumed, or `(0, io.EOF)` at the end
+//	                        (`GoLib.readerReadByte`; the structure is rebound with the rest).  `if x, err := b.Peek(n); cond { … }`
+//	                        (only this form, x used in cond alone — the slice aliases the reader's buffer — and n an integer
+//	                        literal 0 … 16, the smallest buffer a bufio.Reader can have, so ErrBufferFull / ErrNegativeCount
+//	                        cannot occur) is the next n bytes and nil, or all that is left and io.EOF (`GoLib.readerPeek`);
+//	                        `b.Discard(n)` as a statement drops n bytes (`GoLib.readerDiscard`).  NOT MODELLED: an I/O error
+//	                        other than io.EOF from the underlying reader, and a reader that delivers its bytes in pieces (bufio
+//	                        hides that).  A reader is never copied: using the variable as a value (`bufio.NewReader(f)`,
+//	                        `T{b: b}`) hands it on — any later use of that variable is rejected, and so is handing on inside a
+//	                        loop or branch, `r.b` as a value, and a structure literal that leaves the reader nil
+//	errors.New sentinels    a package-level `var errX = errors.New("…")` is inlined as `some "…"` (the rule for package-level
+//	                        tables) and `io.EOF` is the configured `GoLib.ioEOF` = some "EOF": `err == io.EOF`, `r.err == errSyntax`
+//	                        compare MESSAGES where Go compares pointers, so Translate first checks (Config.Sentinels) that
+//	                        all package-level errors.New messages of the file and the configured ones are pairwise different
+//	panic("…")              none, as before; the `nerr > 10000` guard of peekByte is translated like any other code (that it
+//	                        cannot fire is a theorem about the translation: GIV.C18.go_ReadImports_total)
+//	loop in a loop / join   DIRECT STYLE.  A `for` loop inside another loop's body, or inside an if whose branches are joined,
+//	                        cannot hand what follows to a definition f_after<n> (it would have to make the enclosing loop's
+//	                        structurally recursive call, or its value is the join's tuple and not the function's result — the
+//	                        old rule produced ill-formed Lean there).  Such a loop RETURNS the variables it modifies:
+//	                        `f_loop<n> : fixed → fuel → modified → Option (modified)`, a false condition and `break` are
+//	                        `pure (modified)`, and the caller rebinds them: `let (r, c) ← f_loop<n> … (budget) r c`.  A `return`
+//	                        inside such a loop is rejected.  The variables a loop modifies now include those its CONDITION
+//	                        rebinds (`for isIdent(r.peekByte(false)) { … }`)
+//	loop budgets            a reader (variable or structure field) counts with its length in the default budget; the preset
+//	                        gives every loop of read.go the budget of the hand-written model's counterpart
 package go2lean
 
 import (
@@ -164,6 +219,8 @@ const (
 	KFunc   // a function-typed parameter `f func(A, …) R`: an opaque total Lean function A → … → R (Tup = parameters, Elem = result)
 	KNil    // a local slice variable whose nil-ness the code observes: Option of Elem (none = nil), see the package comment
 	KBuffer // a local `var buf bytes.Buffer` / `var sb strings.Builder`: the bytes written so far (Lean Bytes), used only through its methods and fmt.Fprintf(&buf, …)
+	KReader // an `io.Reader` / `*bufio.Reader` (Config.Readers): the input that remains to be read (Lean Bytes); Name = the Go type
+	KPtr    // a parameter `p *[]T` (Config.PtrParams): an in-out parameter, Option of Elem (none = the nil pointer), threaded through
 )
 
 type Type struct {
@@ -194,8 +251,10 @@ func (t *Type) Lean() string {
 		return "UInt8"
 	case KBool:
 		return "Bool"
-	case KBytes, KBuffer:
+	case KBytes, KBuffer, KReader:
 		return "Bytes"
+	case KPtr:
+		return "(Option " + t.Elem.Lean() + ")"
 	case KList:
 		return "(List " + t.Elem.Lean() + ")"
 	case KStruct:
@@ -273,6 +332,18 @@ type Config struct {
 	// OpaqueErrors: `fmt.Errorf(format, args…)` is the non-nil error with message `format` (the arguments are
 	// evaluated and dropped).  For translations whose callers only test errors for nil.
 	OpaqueErrors bool
+	// Threaded: struct types (Go name, also in Structs) whose POINTER-receiver methods are translated with the
+	// receiver threaded through: `func (r *T) m(args) R` is `m (r : T) (args) : Option (R × T)`.
+	Threaded map[string]bool
+	// PtrParams: a parameter `p *[]T` is an in-out parameter of type Option (List T), returned after the results.
+	PtrParams bool
+	// Readers: `io.Reader` and `*bufio.Reader` are the input that remains to be read (Bytes); ReadByte / Peek /
+	// Discard / bufio.NewReader have the meanings of GIV/GoLibReader.lean (no I/O error other than io.EOF).
+	Readers bool
+	// Sentinels: package-qualified error values among Globals with their messages ("io.EOF" → "EOF"): the
+	// package-level `errors.New` sentinels of the file must have messages different from these and from each other,
+	// because `err == errX` on pointers becomes equality of messages.
+	Sentinels map[string]string
 }
 
 type Param struct {
@@ -301,6 +372,20 @@ type funcSig struct {
 	lean    string
 	params  []*Type
 	results []*Type
+	recv    *Type // a threaded method: the receiver's structure (returned after the results, before the pointer parameters)
+}
+
+// threads: the call rebinds something (a threaded receiver or a pointer parameter).
+func (s *funcSig) threads() bool {
+	if s.recv != nil {
+		return true
+	}
+	for _, p := range s.params {
+		if p.K == KPtr {
+			return true
+		}
+	}
+	return false
 }
 
 type tr struct {
@@ -322,11 +407,18 @@ type tr struct {
 	err      error
 	file     *ast.File
 	inGlobal map[string]bool
-	selfRec  bool            // the function being translated calls itself: its body is defined by recursion on a fuel argument
-	nilTest  map[string]bool // names compared with nil somewhere in the function being translated
-	iota     int             // value of `iota` while a package-level constant is being inlined (-1 otherwise)
-	deferred []ast.Stmt      // body of the `defer func() { … }()` that opens the function being translated (nil: none)
-	inReturn bool            // the result expressions of a `return` are being translated (buf.Bytes() is allowed only there)
+	selfRec  bool                // the function being translated calls itself: its body is defined by recursion on a fuel argument
+	nilTest  map[string]bool     // names compared with nil somewhere in the function being translated
+	iota     int                 // value of `iota` while a package-level constant is being inlined (-1 otherwise)
+	deferred []ast.Stmt          // body of the `defer func() { … }()` that opens the function being translated (nil: none)
+	inReturn bool                // the result expressions of a `return` are being translated (buf.Bytes() is allowed only there)
+	methods  map[string]*funcSig // "<Lean structure>.<method>" → a translated threaded method
+	thread   []*varInfo          // the threaded receiver and the pointer parameters of the function being translated (returned after its results)
+	nGo      int                 // number of Go results of the function being translated
+	nEff     int                 // number of rebinding calls emitted so far (evaluation-order checks)
+	moved    map[*varInfo]bool   // reader variables that were handed on (bufio.NewReader(f), T{b: b}): any later use is rejected
+	direct   int                 // > 0: inside a join branch or a direct-style loop — a loop here is translated in direct style
+	peekOK   *ast.CallExpr       // the `b.Peek(n)` of the if-statement initializer being translated
 }
 
 // topLevel finds the initializer of a package-level `const`/`var name = <expr>`.
@@ -491,7 +583,17 @@ func (t *tr) typeExpr(e ast.Expr) *Type {
 				return TMap
 			}
 		}
+	case *ast.SelectorExpr:
+		if t.cfg.Readers && isPkgSel(v, "io", "Reader") && t.lookup("io") == nil {
+			return &Type{K: KReader, Name: "io.Reader"}
+		}
 	case *ast.StarExpr: // *T for a struct T that does not alias (checked by the caller's choice of functions)
+		if sel, ok := v.X.(*ast.SelectorExpr); ok && t.cfg.Readers && isPkgSel(sel, "bufio", "Reader") && t.lookup("bufio") == nil {
+			return &Type{K: KReader, Name: "*bufio.Reader"}
+		}
+		if at, ok := v.X.(*ast.ArrayType); ok && t.cfg.PtrParams && at.Len == nil { // p *[]T: an in-out parameter
+			return &Type{K: KPtr, Elem: t.typeExpr(v.X)}
+		}
 		return t.typeExpr(v.X)
 	case *ast.FuncType: // a function value that is only called: an opaque total function of first-order arguments
 		if v.TypeParams == nil && v.Results != nil && len(v.Results.List) == 1 && len(v.Results.List[0].Names) <= 1 && len(v.Params.List) > 0 {
@@ -522,6 +624,24 @@ func (t *tr) typeExpr(e ast.Expr) *Type {
 	return nil
 }
 
+func isPkgSel(e *ast.SelectorExpr, pkg, name string) bool {
+	id, ok := e.X.(*ast.Ident)
+	return ok && id.Name == pkg && e.Sel.Name == name
+}
+
+// threadedStruct: ty is a structure whose pointer-receiver methods thread it (Config.Threaded).
+func (t *tr) threadedStruct(ty *Type) bool {
+	if ty == nil || ty.K != KStruct {
+		return false
+	}
+	for goName, s := range t.cfg.Structs {
+		if s.Lean == ty.Name && t.cfg.Threaded[goName] {
+			return true
+		}
+	}
+	return false
+}
+
 // definedType finds the underlying type of a package-level `type name <basic type>` (not a struct, not an alias).
 func (t *tr) definedType(name string) ast.Expr {
 	if t.file == nil {
@@ -548,9 +668,9 @@ func (t *tr) zero(ty *Type) string {
 		return "0"
 	case KBool:
 		return "false"
-	case KBytes, KList, KBuffer:
+	case KBytes, KList, KBuffer, KReader:
 		return "[]"
-	case KError, KNil:
+	case KError, KNil, KPtr:
 		return "none"
 	case KStruct:
 		for _, s := range t.cfg.Structs {
@@ -703,6 +823,19 @@ func (t *tr) exprN(e ast.Expr) val {
 			if vi.t.K == KBuffer {
 				t.fail(e, "%s is a %s: only its Write / WriteString / WriteByte statements, fmt.Fprintf(&%s, …), String(), Len() and Bytes() in a return are in the subset", v.Name, vi.t.Name, v.Name)
 			}
+			if vi.t.K == KReader {
+				// a reader used as a VALUE is handed on (bufio.NewReader(f), T{b: b}): the variable must not be used again
+				if t.moved[vi] {
+					t.fail(e, "the reader %s is used after it was handed on (it would alias)", v.Name)
+				}
+				if len(t.loops) > 0 || t.direct > 0 {
+					t.fail(e, "the reader %s is handed on inside a loop or a branch", v.Name)
+				}
+				t.moved[vi] = true
+			}
+			if t.threadedStruct(vi.t) {
+				t.fail(e, "%s is a threaded structure: only its fields and methods are in the subset (as a value the pointer would alias)", v.Name)
+			}
 			return val{s: vi.lean, t: vi.t}
 		}
 		if g, ok := t.cfg.Globals[v.Name]; ok {
@@ -728,6 +861,9 @@ func (t *tr) exprN(e ast.Expr) val {
 			if ev, ok := t.errorLit(cl); ok {
 				return ev
 			}
+			if ty := t.litType(cl); t.threadedStruct(ty) { // r := &T{…}: the structure itself, r is threaded through the calls of its methods
+				return t.exprN(cl)
+			}
 		}
 		x := t.expr(v.X)
 		switch v.Op {
@@ -742,8 +878,17 @@ func (t *tr) exprN(e ast.Expr) val {
 		}
 	case *ast.BinaryExpr:
 		return t.binary(v)
+	case *ast.StarExpr: // *p for a pointer parameter p *[]T: the slice; a nil pointer panics
+		if id, ok := v.X.(*ast.Ident); ok {
+			if vi := t.lookup(id.Name); vi != nil && vi.t.K == KPtr {
+				tmp := t.tmp()
+				return val{pre: []string{fmt.Sprintf("let %s ← %s", tmp, vi.lean)}, s: tmp, t: vi.t.Elem}
+			}
+		}
 	case *ast.IndexExpr:
+		before := t.nEff
 		x, i := t.expr(v.X), t.expr(v.Index)
+		t.noEffSince(before, e)
 		if x.t != nil && x.t.K == KMap { // read of a map[string]bool: never panics, a missing key reads false
 			if len(x.pre) > 0 || i.t == nil || i.t.K != KBytes {
 				t.fail(e, "unsupported map index")
@@ -765,6 +910,8 @@ func (t *tr) exprN(e ast.Expr) val {
 		if v.Slice3 {
 			t.fail(e, "3-index slice")
 		}
+		before := t.nEff
+		defer func() { t.noEffSince(before, e) }()
 		x := t.expr(v.X)
 		pre := append([]string{}, x.pre...)
 		lo, hi := "0", "(GoLib.len "+paren(x.s)+")"
@@ -792,6 +939,9 @@ func (t *tr) exprN(e ast.Expr) val {
 			if x.t.K == KStruct {
 				for _, f := range t.structOf(x.t).Fields {
 					if f.Go == v.Sel.Name {
+						if f.T.K == KReader {
+							t.fail(e, "the reader %s as a value (it would alias): only its methods are in the subset", t.src(e))
+						}
 						return val{s: x.lean + "." + f.Lean, t: f.T}
 					}
 				}
@@ -807,6 +957,8 @@ func (t *tr) exprN(e ast.Expr) val {
 			s := t.structOf(ty)
 			vals := map[string]string{}
 			var pre []string
+			before := t.nEff
+			defer func() { t.noEffSince(before, e) }()
 			for i, el := range v.Elts {
 				if kv, ok := el.(*ast.KeyValueExpr); ok {
 					x := t.coerce(t.expr(kv.Value), t.fieldType(s, kv.Key.(*ast.Ident).Name))
@@ -822,6 +974,9 @@ func (t *tr) exprN(e ast.Expr) val {
 			for i, f := range s.Fields {
 				x, ok := vals[f.Go]
 				if !ok {
+					if f.T.K == KReader {
+						t.fail(e, "%s without a value for the reader %s (a nil reader)", s.Lean, f.Go)
+					}
 					x = t.zero(f.T)
 				}
 				parts[i] = f.Lean + " := " + x
@@ -846,6 +1001,35 @@ func (t *tr) exprN(e ast.Expr) val {
 	}
 	t.fail(e, "unsupported expression %s", t.src(e))
 	return val{}
+}
+
+// litType is the type of a composite literal when it is a configured structure (nil otherwise).
+func (t *tr) litType(cl *ast.CompositeLit) *Type {
+	id, ok := cl.Type.(*ast.Ident)
+	if !ok || t.lookup(id.Name) != nil {
+		return nil
+	}
+	if s, ok := t.cfg.Structs[id.Name]; ok {
+		return &Type{K: KStruct, Name: s.Lean}
+	}
+	return nil
+}
+
+// noEffSince rejects an expression some operand of which rebinds a variable (a threaded call, ReadByte): the pure
+// parts of the other operands are Lean terms evaluated AFTER every `let` line, so the Go evaluation order would be lost.
+func (t *tr) noEffSince(before int, n ast.Node) {
+	if t.nEff != before {
+		t.fail(n, "a call that modifies its receiver inside %s is outside the subset (evaluation order)", t.src(n))
+	}
+}
+
+// pureConst: a Lean term that no rebinding can change (a temporary or a literal).
+func pureConst(s string) bool {
+	if isTmp(s) || s == "true" || s == "false" {
+		return true
+	}
+	_, err := strconv.Atoi(s)
+	return err == nil || (strings.HasPrefix(s, "([") && strings.HasSuffix(s, "] : Bytes)"))
 }
 
 // errorLit translates `T{…}` / `&T{…}` for a configured error type T (Config.ErrorTypes; the file must declare
@@ -923,7 +1107,10 @@ func (t *tr) coerce(v val, want *Type) val {
 func (t *tr) binary(v *ast.BinaryExpr) val {
 	switch v.Op {
 	case token.LAND, token.LOR:
-		x, y := t.expr(v.X), t.expr(v.Y)
+		x := t.expr(v.X)
+		mid := t.nEff
+		y := t.expr(v.Y)
+		t.noEffSince(mid, v.Y) // the right operand is evaluated conditionally: a rebinding there could not escape
 		op := " && "
 		if v.Op == token.LOR {
 			op = " || "
@@ -942,7 +1129,12 @@ func (t *tr) binary(v *ast.BinaryExpr) val {
 		}
 		return val{pre: append(append([]string{}, x.pre...), line), s: tmp, t: TBool}
 	}
-	x, y := t.exprN(v.X), t.exprN(v.Y)
+	x := t.exprN(v.X)
+	mid := t.nEff
+	y := t.exprN(v.Y)
+	if t.nEff != mid && !pureConst(x.s) {
+		t.noEffSince(mid, v) // `r.f == r.m()`: the left operand would be read after the call
+	}
 	if x.t == nil && y.t == nil {
 		t.fail(v, "nil compared with nil")
 	}
@@ -951,7 +1143,7 @@ func (t *tr) binary(v *ast.BinaryExpr) val {
 		if other == nil {
 			other, ov = y.t, y
 		}
-		if other.K == KNil { // the nil test of a variable whose nil-ness is tracked
+		if other.K == KNil || other.K == KPtr { // the nil test of a variable whose nil-ness is tracked / of a pointer parameter
 			if v.Op == token.EQL {
 				return val{pre: ov.pre, s: "Option.isNone " + paren(ov.s), t: TBool}
 			}
@@ -1021,11 +1213,44 @@ func (t *tr) call(c *ast.CallExpr) val {
 		var pre []string
 		var vs []val
 		for _, a := range c.Args {
+			before := t.nEff
 			x := t.expr(a)
+			if t.nEff != before {
+				for _, y := range vs {
+					if !pureConst(y.s) {
+						t.noEffSince(before, c) // an earlier argument would be read after this one's call
+					}
+				}
+			}
 			pre = append(pre, x.pre...)
 			vs = append(vs, x)
 		}
 		return pre, vs
+	}
+	if sel, ok := c.Fun.(*ast.SelectorExpr); ok {
+		if get, set := t.readerPlace(sel.X); get != "" {
+			return t.readerCall(c, sel.Sel.Name, get, set)
+		}
+		if id, ok := sel.X.(*ast.Ident); ok {
+			if vi := t.lookup(id.Name); vi != nil && t.threadedStruct(vi.t) {
+				sig := t.methods[vi.t.Name+"."+sel.Sel.Name]
+				if sig == nil {
+					t.fail(c, "method %s of %s is not among the translated functions (it must come before its callers)", sel.Sel.Name, vi.t.Name)
+				}
+				return t.threadedCall(c, vi, sig)
+			}
+		}
+	}
+	if name == "bufio.NewReader" && t.cfg.Readers && t.lookup("bufio") == nil {
+		// bufio.NewReader(f): the same remaining input; f is handed on (exprN marks it moved)
+		if len(c.Args) != 1 {
+			t.fail(c, "bufio.NewReader with %d arguments", len(c.Args))
+		}
+		x := t.expr(c.Args[0])
+		if x.t == nil || x.t.K != KReader {
+			t.fail(c, "bufio.NewReader of something other than a reader variable")
+		}
+		return val{pre: x.pre, s: x.s, t: &Type{K: KReader, Name: "*bufio.Reader"}}
 	}
 	if id, ok := c.Fun.(*ast.Ident); ok {
 		if vi := t.lookup(id.Name); vi != nil && vi.t.K == KFunc {
@@ -1199,6 +1424,9 @@ func (t *tr) call(c *ast.CallExpr) val {
 		}
 		return val{pre: pre, s: s, t: lf.Ret}
 	}
+	if sig, ok := t.funcs[name]; ok && sig.threads() {
+		return t.threadedCall(c, nil, sig)
+	}
 	if sig, ok := t.funcs[name]; ok {
 		pre, vs := args()
 		var parts []string
@@ -1234,6 +1462,200 @@ func (t *tr) call(c *ast.CallExpr) val {
 	}
 	t.fail(c, "call of %s is outside the subset", name)
 	return val{}
+}
+
+// ---------------------------------------------------------------- threaded receivers, pointer parameters, readers
+
+// threadedCall translates `x.m(args)` for a threaded method m of the structure variable x (recv = x), or `f(args)`
+// for a function with pointer parameters (recv = nil): `let (t1, …, x, p, …) ← m x args`, which REBINDS x and the
+// pointer arguments (same Lean names: everything translated afterwards reads the new values).
+func (t *tr) threadedCall(c *ast.CallExpr, recv *varInfo, sig *funcSig) val {
+	if c.Ellipsis.IsValid() || len(c.Args) != len(sig.params) {
+		t.fail(c, "call of %s with %d arguments", sig.lean, len(c.Args))
+	}
+	var pre, parts, ptrOuts []string
+	for _, ep := range t.cfg.ExtraParams {
+		if vi := t.lookup(ep.Lean); vi != nil {
+			parts = append(parts, vi.lean)
+		} else {
+			parts = append(parts, ep.Lean)
+		}
+	}
+	if recv != nil {
+		parts = append(parts, recv.lean)
+	}
+	seen := map[*varInfo]bool{recv: true}
+	var pures []string
+	for i, a := range c.Args {
+		if sig.params[i].K == KPtr {
+			id, ok := a.(*ast.Ident)
+			var vi *varInfo
+			if ok {
+				vi = t.lookup(id.Name)
+			}
+			if vi == nil || vi.t.K != KPtr || vi.t.Lean() != sig.params[i].Lean() || seen[vi] {
+				t.fail(a, "the argument for a pointer parameter must be a pointer parameter of the caller (passed once)")
+			}
+			seen[vi] = true
+			parts = append(parts, vi.lean)
+			ptrOuts = append(ptrOuts, vi.lean)
+			continue
+		}
+		before := t.nEff
+		x := t.coerce(t.expr(a), sig.params[i])
+		if x.t != nil && (x.t.K == KPtr || x.t.K == KReader) {
+			t.fail(a, "a pointer or reader argument for a value parameter")
+		}
+		if t.nEff != before {
+			for _, y := range pures {
+				if !pureConst(y) {
+					t.noEffSince(before, c)
+				}
+			}
+		}
+		pre = append(pre, x.pre...)
+		pures = append(pures, x.s)
+		parts = append(parts, paren(x.s))
+	}
+	var pat []string
+	var tmps []string
+	for range sig.results {
+		tmp := t.tmp()
+		pat = append(pat, tmp)
+		tmps = append(tmps, tmp)
+	}
+	if recv != nil {
+		pat = append(pat, recv.lean)
+	}
+	pat = append(pat, ptrOuts...)
+	lhs := pat[0]
+	if len(pat) > 1 {
+		lhs = "(" + strings.Join(pat, ", ") + ")"
+	}
+	pre = append(pre, fmt.Sprintf("let %s ← %s %s", lhs, sig.lean, strings.Join(parts, " ")))
+	t.nEff++
+	switch len(tmps) {
+	case 0:
+		return val{pre: pre, s: "()", t: &Type{K: KTuple}}
+	case 1:
+		return val{pre: pre, s: tmps[0], t: sig.results[0]}
+	}
+	return val{pre: pre, s: "(" + strings.Join(tmps, ", ") + ")", t: &Type{K: KTuple, Tup: sig.results}}
+}
+
+// readerPlace recognises a `*bufio.Reader` that can be read from: a local variable b (get = "b") or the field of a
+// structure variable r.b (get = "r.b"); set(v) is the `let` line that stores the remaining input v back.
+func (t *tr) readerPlace(e ast.Expr) (get string, set func(string) string) {
+	switch v := e.(type) {
+	case *ast.Ident:
+		if vi := t.lookup(v.Name); vi != nil && vi.t.K == KReader && vi.t.Name == "*bufio.Reader" {
+			if t.moved[vi] {
+				t.fail(e, "the reader %s is used after it was handed on (it would alias)", v.Name)
+			}
+			return vi.lean, func(x string) string { return fmt.Sprintf("let %s : Bytes := %s", vi.lean, x) }
+		}
+	case *ast.SelectorExpr:
+		if id, ok := v.X.(*ast.Ident); ok {
+			if vi := t.lookup(id.Name); vi != nil && vi.t.K == KStruct {
+				for _, f := range t.structOf(vi.t).Fields {
+					if f.Go == v.Sel.Name && f.T.K == KReader {
+						return vi.lean + "." + f.Lean, func(x string) string {
+							return fmt.Sprintf("let %s : %s := { %s with %s := %s }", vi.lean, vi.t.Lean(), vi.lean, f.Lean, x)
+						}
+					}
+				}
+			}
+		}
+	}
+	return "", nil
+}
+
+// readerCall: the methods of *bufio.Reader in the subset, in an expression.  The reader is the remaining input and
+// never fails other than by running out (GIV/GoLibReader.lean).
+func (t *tr) readerCall(c *ast.CallExpr, method, get string, set func(string) string) val {
+	switch method {
+	case "ReadByte": // (c, nil) and one byte consumed, or (0, io.EOF)
+		if len(c.Args) != 0 {
+			t.fail(c, "ReadByte with arguments")
+		}
+		b, e, rest := t.tmp(), t.tmp(), t.tmp()
+		t.nEff++
+		return val{pre: []string{fmt.Sprintf("let (%s, %s, %s) := GoLib.readerReadByte %s", b, e, rest, get), set(rest)},
+			s: "(" + b + ", " + e + ")", t: &Type{K: KTuple, Tup: []*Type{TByte, TError}}}
+	case "Peek": // the next n bytes, not consumed; fewer (and io.EOF) at the end of the input
+		if t.peekOK != c {
+			t.fail(c, "Peek is in the subset only as `if x, err := b.Peek(n); cond { … }` with x used in cond alone (the slice aliases the reader's buffer)")
+		}
+		return val{s: fmt.Sprintf("GoLib.readerPeek %s %s", get, t.smallLit(c)), t: &Type{K: KTuple, Tup: []*Type{TBytes, TError}}}
+	}
+	t.fail(c, "method %s of a *bufio.Reader in an expression is outside the subset", method)
+	return val{}
+}
+
+// smallLit: the single argument of Peek / Discard must be an integer literal 0 … 16 (16 = the smallest buffer a
+// bufio.Reader can have, so ErrBufferFull and ErrNegativeCount cannot occur).
+func (t *tr) smallLit(c *ast.CallExpr) string {
+	if len(c.Args) == 1 {
+		if lit, ok := c.Args[0].(*ast.BasicLit); ok && lit.Kind == token.INT {
+			if n, err := strconv.Atoi(lit.Value); err == nil && n >= 0 && n <= 16 {
+				return strconv.Itoa(n)
+			}
+		}
+	}
+	t.fail(c, "%s: the count must be an integer literal 0 … 16", t.src(c))
+	return ""
+}
+
+// effectStmt translates an expression statement that is a rebinding call whose results are dropped:
+// `r.m(x)`, `f(p)`, `r.b.ReadByte()`, `b.Discard(n)`.  ok = false: not such a statement.
+func (t *tr) effectStmt(c *ast.CallExpr) (lines []string, ok bool) {
+	if sel, isSel := c.Fun.(*ast.SelectorExpr); isSel {
+		if get, set := t.readerPlace(sel.X); get != "" {
+			if sel.Sel.Name == "Discard" { // the next n bytes are skipped (fewer at the end of the input); results dropped
+				t.nEff++
+				return []string{set(fmt.Sprintf("GoLib.readerDiscard %s %s", get, t.smallLit(c)))}, true
+			}
+			if sel.Sel.Name == "ReadByte" {
+				return t.expr(c).pre, true
+			}
+			return nil, false
+		}
+		if id, isId := sel.X.(*ast.Ident); isId {
+			if vi := t.lookup(id.Name); vi != nil && t.threadedStruct(vi.t) {
+				return t.expr(c).pre, true
+			}
+		}
+	}
+	if sig, isFn := t.funcs[calleeName(c.Fun)]; isFn && sig.threads() {
+		return t.expr(c).pre, true
+	}
+	return nil, false
+}
+
+// rebound lists the Go names a call rebinds: the receiver of a threaded method or of a reader method, the
+// structure holding the reader, the pointer arguments.
+func (t *tr) rebound(c *ast.CallExpr, note func(string)) {
+	if sel, ok := c.Fun.(*ast.SelectorExpr); ok {
+		switch x := sel.X.(type) {
+		case *ast.Ident:
+			if vi := t.lookup(x.Name); vi != nil && (t.threadedStruct(vi.t) || vi.t.K == KReader) {
+				note(x.Name)
+			}
+		case *ast.SelectorExpr:
+			if id, ok := x.X.(*ast.Ident); ok {
+				if get, _ := t.readerPlace(x); get != "" {
+					note(id.Name)
+				}
+			}
+		}
+	}
+	for _, a := range c.Args {
+		if id, ok := a.(*ast.Ident); ok {
+			if vi := t.lookup(id.Name); vi != nil && vi.t.K == KPtr {
+				note(id.Name)
+			}
+		}
+	}
 }
 
 // ---------------------------------------------------------------- accumulators (bytes.Buffer, strings.Builder)
@@ -1594,6 +2016,10 @@ func (t *tr) assigned(list []ast.Stmt) []*varInfo {
 			if id, ok := v.X.(*ast.Ident); ok {
 				names[id.Name] = true
 			}
+		case *ast.StarExpr: // *p = … through a pointer parameter
+			if id, ok := v.X.(*ast.Ident); ok {
+				names[id.Name] = true
+			}
 		}
 	}
 	for _, s := range list {
@@ -1606,6 +2032,8 @@ func (t *tr) assigned(list []ast.Stmt) []*varInfo {
 				}
 			case *ast.IncDecStmt:
 				note(v.X)
+			case *ast.CallExpr: // a threaded method, a reader method, a pointer argument: the call rebinds
+				t.rebound(v, func(n string) { names[n] = true })
 			case *ast.RangeStmt:
 				if v.Tok == token.ASSIGN {
 					if v.Key != nil {
@@ -1755,6 +2183,9 @@ func (t *tr) block(list []ast.Stmt, k func() string) string {
 			if vi := t.bufferWritten(c); vi != nil { // a write to an accumulator (`var buf bytes.Buffer`)
 				return join(t.bufferWrite(c, vi), rest())
 			}
+			if lines, ok := t.effectStmt(c); ok { // r.m(x) / b.Discard(n) as a statement: the results are dropped
+				return join(lines, rest())
+			}
 			switch calleeName(c.Fun) {
 			case "panic":
 				return "none"
@@ -1788,13 +2219,23 @@ func (t *tr) returnStmt(r *ast.ReturnStmt) string {
 	}
 	var pre, parts []string
 	if t.deferred != nil {
+		if len(t.thread) > 0 {
+			t.fail(r, "a deferred call in a function with a threaded receiver or pointer parameters")
+		}
 		return t.returnDeferred(r, want)
+	}
+	if len(t.thread) > 0 {
+		// the threaded receiver and the pointer parameters are returned after the results, with their current values
+		want = want[:t.nGo]
 	}
 	if len(r.Results) == 0 {
 		for _, n := range t.named {
 			parts = append(parts, t.lookup(n).lean)
 		}
 	} else if len(r.Results) == 1 && len(want) > 1 { // return f(x)
+		if len(t.thread) > 0 {
+			t.fail(r, "return f(x) of several results in a function with a threaded receiver or pointer parameters")
+		}
 		x := t.expr(r.Results[0])
 		return join(x.pre, t.wrapRet(x.s))
 	} else {
@@ -1803,6 +2244,9 @@ func (t *tr) returnStmt(r *ast.ReturnStmt) string {
 			pre = append(pre, x.pre...)
 			parts = append(parts, x.s)
 		}
+	}
+	for _, vi := range t.thread {
+		parts = append(parts, vi.lean)
 	}
 	res := parts[0]
 	if len(parts) > 1 {
@@ -1925,6 +2369,14 @@ func (t *tr) simple(s ast.Stmt) []string {
 		}
 		return lines
 	case *ast.IncDecStmt:
+		if _, isSel := v.X.(*ast.SelectorExpr); isSel { // r.f++ : r.f = r.f + 1
+			op := token.ADD
+			if v.Tok == token.DEC {
+				op = token.SUB
+			}
+			x := t.binary(&ast.BinaryExpr{X: v.X, Op: op, Y: &ast.BasicLit{Kind: token.INT, Value: "1", ValuePos: v.Pos()}, OpPos: v.Pos()})
+			return append(x.pre, t.assignTo(v.X, val{s: x.s, t: x.t}, false)...)
+		}
 		id, ok := v.X.(*ast.Ident)
 		if !ok || t.lookup(id.Name) == nil {
 			t.fail(s, "unsupported ++/--")
@@ -1947,7 +2399,17 @@ func (t *tr) simple(s ast.Stmt) []string {
 }
 
 func (t *tr) assignTo(lhs ast.Expr, x val, define bool) []string {
+	if x.t != nil && x.t.K == KPtr {
+		t.fail(lhs, "a pointer parameter assigned to %s (it would alias)", t.src(lhs))
+	}
 	switch l := lhs.(type) {
+	case *ast.StarExpr: // *p = x for a pointer parameter p *[]T: a nil pointer panics
+		if id, ok := l.X.(*ast.Ident); ok {
+			if vi := t.lookup(id.Name); vi != nil && vi.t.K == KPtr {
+				x = t.coerce(x, vi.t.Elem)
+				return []string{fmt.Sprintf("let _ ← %s", vi.lean), fmt.Sprintf("let %s : %s := some %s", vi.lean, vi.t.Lean(), paren(x.s))}
+			}
+		}
 	case *ast.Ident:
 		if l.Name == "_" {
 			return nil
@@ -2083,7 +2545,9 @@ func (t *tr) ifStmt(v *ast.IfStmt, rest func() string) string {
 	t.push() // scope of the init statement and of both branches
 	var lines []string
 	if v.Init != nil {
+		t.peekOK = t.peekInit(v)
 		lines = t.simple(v.Init)
+		t.peekOK = nil
 	}
 	c := t.expr(v.Cond)
 	lines = append(lines, c.pre...)
@@ -2114,8 +2578,10 @@ func (t *tr) ifStmt(v *ast.IfStmt, rest func() string) string {
 			return ""
 		})
 		tp := tuple(outer)
+		t.direct++ // the value of a branch is the tuple, not the function's result: a loop in there is direct style
 		th := branch(thenL, func() string { return "pure " + tp })
 		el := branch(elseL, func() string { return "pure " + tp })
+		t.direct--
 		if len(outer) == 0 {
 			body = fmt.Sprintf("let _ ← (if %s then do\n%s\n  else do\n%s)\n%s", c.s, indent(th, 4), indent(el, 4), popRest())
 		} else {
@@ -2145,6 +2611,41 @@ func (t *tr) ifStmt(v *ast.IfStmt, rest func() string) string {
 	return join(lines, body)
 }
 
+// peekInit recognises `if x, err := b.Peek(n); cond { … }` with x mentioned neither in the body nor in the else
+// branch (the slice Peek returns is only valid until the next read: it may be used in the condition alone).
+func (t *tr) peekInit(v *ast.IfStmt) *ast.CallExpr {
+	as, ok := v.Init.(*ast.AssignStmt)
+	if !ok || as.Tok != token.DEFINE || len(as.Lhs) != 2 || len(as.Rhs) != 1 {
+		return nil
+	}
+	c, ok := as.Rhs[0].(*ast.CallExpr)
+	if !ok {
+		return nil
+	}
+	sel, ok := c.Fun.(*ast.SelectorExpr)
+	x, isId := as.Lhs[0].(*ast.Ident)
+	if !ok || !isId || sel.Sel.Name != "Peek" {
+		return nil
+	}
+	used := false
+	check := func(n ast.Node) {
+		ast.Inspect(n, func(y ast.Node) bool {
+			if id, ok := y.(*ast.Ident); ok && id.Name == x.Name && x.Name != "_" {
+				used = true
+			}
+			return true
+		})
+	}
+	check(v.Body)
+	if v.Else != nil {
+		check(v.Else)
+	}
+	if used {
+		return nil
+	}
+	return c
+}
+
 func (t *tr) fuelFor(n int) string {
 	key := fmt.Sprintf("%s#%d", t.fn.Name.Name, n)
 	if f, ok := t.cfg.Fuel[key]; ok {
@@ -2154,6 +2655,16 @@ func (t *tr) fuelFor(n int) string {
 	for _, v := range t.inScope() {
 		if v.t.K == KBytes || v.t.K == KList {
 			parts = append(parts, v.lean+".length")
+		}
+		if v.t.K == KReader && !t.moved[v] { // what a reader still holds
+			parts = append(parts, v.lean+".length")
+		}
+		if v.t.K == KStruct && len(t.cfg.Threaded) > 0 {
+			for _, f := range t.structOf(v.t).Fields {
+				if f.T.K == KReader {
+					parts = append(parts, v.lean+"."+f.Lean+".length")
+				}
+			}
 		}
 	}
 	parts = append(parts, "2")
@@ -2169,6 +2680,11 @@ func (t *tr) forStmt(v *ast.ForStmt, rest func() string) string {
 	t.nLoop++
 	nLoop := t.nLoop
 	fuel := t.fuelFor(nLoop)
+	if len(t.loops) > 0 || t.direct > 0 {
+		r := t.forDirect(v, nLoop, fuel, lines, rest)
+		t.pop()
+		return r
+	}
 	// what follows the loop (the init-scope variables are passed along, unused)
 	after := t.auxDef("after", func() string { return t.withoutTop(rest) })
 	afterName := strings.Fields(after)[0]
@@ -2178,6 +2694,9 @@ func (t *tr) forStmt(v *ast.ForStmt, rest func() string) string {
 	modSrc := body
 	if v.Post != nil {
 		modSrc = append(append([]ast.Stmt{}, body...), v.Post)
+	}
+	if v.Cond != nil && len(t.cfg.Threaded) > 0 { // a condition like `r.peekByte(true) == 'i'` rebinds r
+		modSrc = append(append([]ast.Stmt{}, modSrc...), &ast.ExprStmt{X: v.Cond})
 	}
 	mod := t.assigned(modSrc)
 	isMod := map[*varInfo]bool{}
@@ -2227,6 +2746,99 @@ func (t *tr) forStmt(v *ast.ForStmt, rest func() string) string {
 	call := strings.TrimSpace(fmt.Sprintf("%s %s (%s) %s", name, strings.Join(fas, " "), fuel, strings.Join(mas, " ")))
 	t.pop()
 	return join(lines, call)
+}
+
+// forDirect translates a loop that stands inside another loop's body or inside a joined branch — where what
+// follows cannot become a definition of its own (it ends in the enclosing loop's recursive call, or its value is
+// the tuple of a join and not the function's result).  DIRECT STYLE: the loop definition returns the tuple of
+// the variables it modifies,
+//
+//	f_loop<n> : fixed variables → fuel → modified variables → Option (modified variables)
+//
+// `break` and a false condition return the current values, `continue` and the end of the body recurse, and the
+// caller rebinds the variables: `let (c, r) ← f_loop<n> … (fuel) c r`.  A `return` (or an abort) inside such a
+// loop is outside the subset.
+func (t *tr) forDirect(v *ast.ForStmt, nLoop int, fuel string, lines []string, rest func() string) string {
+	bad := false
+	ast.Inspect(v.Body, func(x ast.Node) bool {
+		switch y := x.(type) {
+		case *ast.ReturnStmt:
+			bad = true
+		case *ast.FuncLit:
+			return false
+		case *ast.CallExpr:
+			if abortCalls[calleeName(y.Fun)] {
+				bad = true
+			}
+		}
+		return true
+	})
+	if bad {
+		t.fail(v, "a loop inside a loop body or a joined branch that returns is outside the subset")
+	}
+	vars := t.inScope()
+	body := append([]ast.Stmt{}, v.Body.List...)
+	modSrc := body
+	if v.Post != nil {
+		modSrc = append(append([]ast.Stmt{}, body...), v.Post)
+	}
+	if v.Cond != nil {
+		modSrc = append(append([]ast.Stmt{}, modSrc...), &ast.ExprStmt{X: v.Cond})
+	}
+	mod := t.assigned(modSrc)
+	isMod := map[*varInfo]bool{}
+	for _, m := range mod {
+		isMod[m] = true
+	}
+	var fps, fas, mts, mas []string
+	for _, x := range vars {
+		if !isMod[x] {
+			fps = append(fps, fmt.Sprintf("(%s : %s)", x.lean, x.t.Lean()))
+			fas = append(fas, x.lean)
+		}
+	}
+	for _, x := range mod {
+		mts = append(mts, x.t.Lean())
+		mas = append(mas, x.lean)
+	}
+	name := fmt.Sprintf("%s_loop%d", t.fnLean, nLoop)
+	resTy := "Unit"
+	if len(mts) > 0 {
+		resTy = "(" + strings.Join(mts, " × ") + ")"
+	}
+	done := func() string { return "pure " + tuple(mod) }
+	recur := func() string {
+		return strings.TrimSpace(fmt.Sprintf("%s %s fuel %s", name, strings.Join(fas, " "), strings.Join(mas, " ")))
+	}
+	cont := recur
+	if v.Post != nil {
+		cont = func() string { return join(t.simple(v.Post), recur()) }
+	}
+	saveLoops := t.loops
+	t.loops = append(t.loops, &loopCtx{brk: done, cont: cont})
+	t.direct++
+	t.push()
+	var inner string
+	if v.Cond != nil {
+		c := t.expr(v.Cond)
+		b := t.block(body, cont)
+		inner = join(c.pre, fmt.Sprintf("if !%s then do\n%s\nelse\n%s", paren(c.s), indent(done(), 2), b))
+	} else {
+		inner = t.block(body, cont)
+	}
+	t.pop()
+	t.direct--
+	t.loops = saveLoops
+	sig := fmt.Sprintf("def %s %s : Nat → %sOption %s", name, strings.Join(fps, " "), strings.Join(append(mts, ""), " → "), resTy)
+	zeroPat := "  | 0" + strings.Repeat(", _", len(mod)) + " => none"
+	succPat := "  | fuel + 1" + prefixEach(mas, ", ") + " => do"
+	t.out = append(t.out, fmt.Sprintf("%s\n%s\n%s\n%s\n", sig, zeroPat, succPat, indent(inner, 4)))
+	call := strings.TrimSpace(fmt.Sprintf("%s %s (%s) %s", name, strings.Join(fas, " "), fuel, strings.Join(mas, " ")))
+	bind := "let _ ← " + call
+	if len(mod) > 0 {
+		bind = "let " + tuple(mod) + " ← " + call
+	}
+	return join(append(lines, bind), t.withoutTop(rest))
 }
 
 func prefixEach(xs []string, p string) string {
@@ -2348,7 +2960,7 @@ func (t *tr) rangeStmt(v *ast.RangeStmt, rest func() string) string {
 // Translate translates the named top-level functions of one file (in the given order: a function
 // must come after the functions it calls) and returns the Lean text of all definitions.
 func Translate(fset *token.FileSet, file *ast.File, names []string, cfg *Config) (text string, err error) {
-	t := &tr{cfg: cfg, fset: fset, funcs: map[string]*funcSig{}, file: file, inGlobal: map[string]bool{}, iota: -1}
+	t := &tr{cfg: cfg, fset: fset, funcs: map[string]*funcSig{}, methods: map[string]*funcSig{}, file: file, inGlobal: map[string]bool{}, iota: -1}
 	defer func() {
 		if r := recover(); r != nil {
 			if b, ok := r.(bail); ok {
@@ -2360,6 +2972,9 @@ func Translate(fset *token.FileSet, file *ast.File, names []string, cfg *Config)
 	}()
 	abortCalls = cfg.Abort
 	defer func() { abortCalls = nil }()
+	if err := checkSentinels(file, cfg); err != nil {
+		return "", err
+	}
 	decls := map[string]*ast.FuncDecl{}
 	for _, d := range file.Decls {
 		fd, ok := d.(*ast.FuncDecl)
@@ -2408,6 +3023,47 @@ func Translate(fset *token.FileSet, file *ast.File, names []string, cfg *Config)
 	return b.String(), nil
 }
 
+// checkSentinels: with Config.Sentinels, `err == errX` compares messages where Go compares pointers, so the
+// package-level `var errX = errors.New("…")` of the file and the configured library sentinels (io.EOF) must all
+// have different messages.
+func checkSentinels(file *ast.File, cfg *Config) error {
+	if cfg.Sentinels == nil {
+		return nil
+	}
+	seen := map[string]string{}
+	for n, m := range cfg.Sentinels {
+		if o, dup := seen[m]; dup {
+			return fmt.Errorf("the error values %s and %s have the same message", o, n)
+		}
+		seen[m] = n
+	}
+	for _, d := range file.Decls {
+		gd, ok := d.(*ast.GenDecl)
+		if !ok || gd.Tok != token.VAR {
+			continue
+		}
+		for _, sp := range gd.Specs {
+			vs := sp.(*ast.ValueSpec)
+			for i, v := range vs.Values {
+				c, ok := v.(*ast.CallExpr)
+				if !ok || calleeName(c.Fun) != "errors.New" || len(c.Args) != 1 || i >= len(vs.Names) {
+					continue
+				}
+				lit, ok := c.Args[0].(*ast.BasicLit)
+				if !ok || lit.Kind != token.STRING {
+					return fmt.Errorf("%s: errors.New of something other than a string literal", vs.Names[i].Name)
+				}
+				m, _ := strconv.Unquote(lit.Value)
+				if o, dup := seen[m]; dup {
+					return fmt.Errorf("the error values %s and %s have the same message", o, vs.Names[i].Name)
+				}
+				seen[m] = vs.Names[i].Name
+			}
+		}
+	}
+	return nil
+}
+
 func (t *tr) function(fd *ast.FuncDecl) string {
 	t.fn = fd
 	t.fnLean = t.cfg.Prefix + fd.Name.Name
@@ -2439,12 +3095,28 @@ func (t *tr) function(fd *ast.FuncDecl) string {
 		vi := t.declare(ep.Lean, &Type{K: KOpaque, Name: ep.Type})
 		ps = append(ps, fmt.Sprintf("(%s : %s)", vi.lean, ep.Type))
 	}
+	t.thread, t.moved, t.direct, t.peekOK = nil, map[*varInfo]bool{}, 0, nil
+	if fd.Recv != nil && len(fd.Recv.List) == 1 && len(fd.Recv.List[0].Names) == 1 {
+		// a POINTER receiver of a threaded structure: the first parameter, returned (with its final value) after the results
+		if st, ok := fd.Recv.List[0].Type.(*ast.StarExpr); ok {
+			if id, ok := st.X.(*ast.Ident); ok && t.cfg.Threaded[id.Name] {
+				ty := t.typeExpr(id)
+				vi := t.declare(fd.Recv.List[0].Names[0].Name, ty)
+				ps = append(ps, fmt.Sprintf("(%s : %s)", vi.lean, ty.Lean()))
+				sig.recv = ty
+				t.thread = append(t.thread, vi)
+			}
+		}
+	}
 	for _, f := range fd.Type.Params.List {
 		ty := t.typeExpr(f.Type)
 		for _, n := range f.Names {
 			vi := t.declare(n.Name, ty)
 			ps = append(ps, fmt.Sprintf("(%s : %s)", vi.lean, ty.Lean()))
 			sig.params = append(sig.params, ty)
+			if ty.K == KPtr {
+				t.thread = append(t.thread, vi)
+			}
 		}
 	}
 	var pre []string
@@ -2460,13 +3132,18 @@ func (t *tr) function(fd *ast.FuncDecl) string {
 			}
 		}
 	}
-	if len(sig.results) == 0 {
+	if len(sig.results) == 0 && len(t.thread) == 0 {
 		t.fail(fd, "function without results")
 	}
-	if len(sig.results) == 1 {
-		t.ret = sig.results[0]
+	t.nGo = len(sig.results)
+	all := append([]*Type{}, sig.results...)
+	for _, vi := range t.thread {
+		all = append(all, vi.t)
+	}
+	if len(all) == 1 {
+		t.ret = all[0]
 	} else {
-		t.ret = &Type{K: KTuple, Tup: sig.results}
+		t.ret = &Type{K: KTuple, Tup: all}
 	}
 	// named results are variables with zero values
 	if len(t.named) > 0 {
@@ -2479,7 +3156,11 @@ func (t *tr) function(fd *ast.FuncDecl) string {
 			}
 		}
 	}
-	t.funcs[fd.Name.Name] = sig
+	if sig.recv != nil {
+		t.methods[sig.recv.Name+"."+fd.Name.Name] = sig
+	} else {
+		t.funcs[fd.Name.Name] = sig
+	}
 	// direct self-recursion (f calls f): the body is defined by structural recursion on a budget
 	t.selfRec = false
 	if fd.Recv == nil {
@@ -2511,13 +3192,13 @@ func (t *tr) function(fd *ast.FuncDecl) string {
 		}
 	}
 	body := t.block(stmts, func() string {
-		if len(t.named) > 0 {
+		if len(t.named) > 0 || t.nGo == 0 { // the end of a function without results is a plain return
 			return t.returnStmt(&ast.ReturnStmt{})
 		}
 		return "none"
 	})
 	t.deferred = nil
-	if fd.Recv != nil {
+	if fd.Recv != nil && sig.recv == nil {
 		t.funcs[fd.Recv.List[0].Names[0].Name+"."+fd.Name.Name] = sig
 	}
 	doc := fmt.Sprintf("/-- translated from `func %s` (%s) -/\n", fd.Name.Name, t.fset.Position(fd.Pos()).Filename)
